@@ -35,19 +35,30 @@ Definition apply_updates (a : archive) (U : list (bytes * bytes)) : option archi
 Inductive file_change :=
 | Untouched                 (* no update was recorded: the file is not written *)
 | Rewritten (data : bytes)  (* os.WriteFile(ts.file, txtar.Format(archive)) *)
-| UpdateError.              (* Quote refused: Fatalf outside runLine, nothing is written *)
+| UpdateError.              (* Quote refused: Fatalf, nothing is written, the run fails *)
 
 Record file_result := { f_run : run_result; f_change : file_change }.
+
+(* applyScriptUpdates runs when run() is left; its Fatalf is logged with the current line
+   number and ends the run as failed (corrected behaviour: the unrepaired code let the
+   failNow panic escape and crash the caller) *)
+Definition with_update_failure (r : run_result) : run_result :=
+  let n := s_lineno (r_final r) in
+  {| r_verdict := match r_verdict r with Fail k => Fail k | _ => Fail n end;
+     r_final := r_final r;
+     r_fail_lines := r_fail_lines r ++ [n] |}.
+
+Definition change_of (a : archive) (U : list (bytes * bytes)) : file_change :=
+  match U with
+  | [] => Untouched
+  | _ => match apply_updates a U with
+         | Some a' => Rewritten (format a')
+         | None => UpdateError
+         end
+  end.
 
 Definition run_file_full (cfg : config) (work : bytes) (env : list (bytes * bytes)) (file : bytes) : file_result :=
   let a := parse file in
   let r := run_archive cfg work env a in
-  let U := s_updates (r_final r) in
-  {| f_run := r;
-     f_change := match U with
-                 | [] => Untouched
-                 | _ => match apply_updates a U with
-                        | Some a' => Rewritten (format a')
-                        | None => UpdateError
-                        end
-                 end |}.
+  let ch := change_of a (s_updates (r_final r)) in
+  {| f_run := match ch with UpdateError => with_update_failure r | _ => r end; f_change := ch |}.
